@@ -25,6 +25,7 @@ type VocabOpts struct {
 	MaxDepth        int  // nesting depth of sub-kinds (default 3)
 	Hostile         bool // hostile member names (quotes, backslashes, control chars, regex syntax ...)
 	OptPct          int  // probability of each optional member (default 30)
+	EmptyListPct    int  // probability that a typed list (consumes, tags, required, parameters, allOf, tuple items, ...) is drawn empty - outside C01's normal form; 0 = never
 	EmptyReqPct     int  // probability that a required string member is drawn empty (K5); 0 = never
 	NoZeroValid     bool // do not draw numeric validations equal to 0 (gob K3 steering)
 	NoEmptyInFree   bool // no empty arrays inside free-form payloads (gob K4 steering)
@@ -57,6 +58,7 @@ type V struct {
 	O VocabOpts
 	// Flags describing what was produced (for labels / non-triviality)
 	lastName    string
+	EmptyList   bool // an empty typed list was drawn
 	HostileName bool
 	ZeroValid   bool
 	Extension   bool
@@ -250,6 +252,10 @@ func strList(v *V, d int) any {
 
 func uniqueStrList(pool []string) func(v *V, d int) any {
 	return func(v *V, d int) any {
+		if v.O.EmptyListPct > 0 && Pct(v.T, "emptylist", v.O.EmptyListPct) {
+			v.EmptyList = true
+			return []any{}
+		}
 		n := 1 + Uniform(v.T, "nuniq", len(pool))
 		start := Uniform(v.T, "uniqstart", len(pool))
 		out := make([]any, 0, n)
@@ -339,6 +345,10 @@ func mapOf(elem func(v *V, d int) any, nameOf func(v *V) string) func(v *V, d in
 
 func listOf(elem func(v *V, d int) any) func(v *V, d int) any {
 	return func(v *V, d int) any {
+		if v.O.EmptyListPct > 0 && Pct(v.T, "emptylist", v.O.EmptyListPct) {
+			v.EmptyList = true
+			return []any{}
+		}
 		n := 1 + Uniform(v.T, "nlist", 2)
 		out := make([]any, n)
 		for i := range out {
